@@ -145,6 +145,29 @@ macro_rules! tree_api {
                         }
                         n.to_string()
                     }
+                    "initfill" => {
+                        // probe on a private copy, ONE handle: initialize(cap) with cap possibly below the number of
+                        // records, then insert fresh keys until refused (the header capacity is not re-synchronised
+                        // with the record count in between, as it would be by a re-open)
+                        let mut copy = ABuf::new_skewed(bytes, 2, 0x5b, (bytes.as_ptr() as usize) % 16);
+                        let mut n = 0usize;
+                        {
+                            let mut t = $mut::<$K, $V>::from_bytes_mut(copy.bytes_mut());
+                            t.initialize(op.args[0] as $cap);
+                            let base = op.args[1];
+                            let lim = op.args[2];
+                            let mut j = 0i128;
+                            while j < lim {
+                                let key = <$K as Num>::from_i(base + j);
+                                if t.insert(key, <$V as Num>::from_i(1 + j)).is_none() {
+                                    break;
+                                }
+                                n += 1;
+                                j += 1;
+                            }
+                        }
+                        n.to_string()
+                    }
                     "fill" => {
                         // probe on a private copy: insert fresh keys until refused
                         let mut copy = ABuf::new_skewed(bytes, 1, 0x77, (bytes.as_ptr() as usize) % 16);
@@ -370,7 +393,7 @@ impl<A: TreeApi> TreeSut<A> {
         let name = it.next()?;
         const NAMES: &[&str] = &[
             "init", "open", "ins", "rem", "get", "has", "upd", "gmq", "low", "len", "cap", "full", "empty", "rget", "rhas", "rlow", "rlen", "rcap",
-            "rfull", "rempty", "fill", "ext", "dlen", "bulk", "bulkrem",
+            "rfull", "rempty", "fill", "ext", "dlen", "bulk", "bulkrem", "initfill",
         ];
         let n = NAMES.iter().find(|n| **n == name)?;
         let args: Vec<i128> = it.filter_map(|a| a.parse().ok()).collect();
@@ -530,6 +553,14 @@ impl<A: TreeApi> Sut for TreeSut<A> {
         if self.fill {
             v.push(Op::new("fill", &[self.fresh_base, (d.cap + 2) as i128]));
         }
+        if self.fill && d.size == 0 && d.slots >= 2 {
+            // a tree initialized with fewer entries than the buffer has records, filled through the same handle
+            for c in [0usize, 1, d.slots / 2, d.slots - 1] {
+                if c < d.slots {
+                    v.push(Op::new("initfill", &[c as i128, self.fresh_base, (d.slots + 2) as i128]));
+                }
+            }
+        }
         if d.slots < self.max_slots {
             v.push(Op::new("ext", &[1]));
             if d.slots + 2 <= self.max_slots {
@@ -626,7 +657,7 @@ impl<A: TreeApi> Sut for TreeSut<A> {
         f
     }
     fn sessionable(&self, op: &Op) -> bool {
-        !matches!(op.name, "ext" | "open" | "fill" | "dlen" | "bulk" | "bulkrem")
+        !matches!(op.name, "ext" | "open" | "fill" | "dlen" | "bulk" | "bulkrem" | "initfill")
     }
     fn session(&self, buf: &mut ABuf, ops: &[Op]) -> Option<Vec<String>> {
         take_log();
@@ -652,7 +683,7 @@ impl<A: TreeApi> Sut for TreeSut<A> {
         let mut f = vec![];
         let prop_of = |name: &str| match name {
             "dlen" => "C10",
-            "fill" => "C07",
+            "fill" | "initfill" => "C07",
             "open" | "ext" | "cap" | "rcap" => "C08",
             _ => "C01",
         };
@@ -708,6 +739,22 @@ impl<A: TreeApi> Sut for TreeSut<A> {
                 }
                 (m2, A::call(copy.bytes_mut(), &Op::new("len", &[])))
             });
+            let flags = guarded(|| {
+                let q = |n: &'static str, c: &mut ABuf| A::call(c.bytes_mut(), &Op::new(n, &[]));
+                let mut c2 = ABuf::new_skewed(post, 1, 0x22, self.skew());
+                (
+                    (q("cap", &mut c2), q("full", &mut c2), q("empty", &mut c2), q("low", &mut c2)),
+                    (q("rcap", &mut c2), q("rfull", &mut c2), q("rempty", &mut c2), q("rlow", &mut c2)),
+                )
+            });
+            match flags {
+                Ok((mu, ro)) => {
+                    if mu != ro {
+                        f.push(Finding { property: "C04", what: format!("after `{}` the mutable view answers (capacity, is_full, is_empty, lowest) = {:?} but the read-only view of the same bytes answers {:?}", op.text(), mu, ro) });
+                    }
+                }
+                Err(_) => f.push(Finding { property: "C04", what: format!("after `{}` capacity/is_full/is_empty/lowest panics on one of the views", op.text()) }),
+            }
             match viaw {
                 Ok((m2, l2)) => {
                     if m2 != q || l2 != qlen.to_string() {
@@ -783,6 +830,8 @@ impl<A: TreeApi> Sut for TreeSut<A> {
                 exp.clear();
                 None
             }
+            // exactly `cap` fresh entries fit into a tree initialized with `cap` <= records, whatever the buffer holds beyond
+            "initfill" => Some((op.args[0].min(op.args[2]) as usize).to_string()),
             "dlen" => None,
             "bulk" => {
                 // ascending fresh keys: the first `n` of them are inserted
